@@ -184,7 +184,7 @@ def prepare(work, tier, seed):
 
 def random_cases(rng, tier):
     """Problems beyond the enumerated universe: up to 4 items, 4 classes, 1/4 and 1/8 lattices, any clip partition."""
-    want = 500 if tier == "quick" else 4000
+    want = 400 if tier == "quick" else 3000
     made = 0
     while made < want:
         task = rng.choice(["cc", "cml", "sec", "sed"])
@@ -251,3 +251,27 @@ def finding_key(o, clause):
     else:
         what = "other"
     return f"Evaluates/{c['task']}/{exc}/{what}"
+
+
+MANIFEST = {
+    "text": ("Metrics.tla defines accuracy, balanced accuracy, top-3 accuracy, true-class probability, average precision "
+             "(per class and per clip), macro mean average precision and the Jaccard index (threshold 1/2) as exact "
+             "rationals over abstract items (truth, score ticks), as SETS of allowed values where argmax / top-k ties, a "
+             "score exactly on the threshold, classes without positives or 0/0 leave freedom, with the extra 'none' class "
+             "for the accuracy family and unlabelled items left out of mean average precision. TLC checks on the model: "
+             "every allowed value is a rational of [0,1], permutation invariance, accuracy <= top-3, balanced accuracy = "
+             "accuracy on balanced truths, none-is-a-class, none-left-out, AP = 1 on perfect rankings, Jaccard extremes, "
+             "DistinctTerms and term-names-function for the (term, metric) tables of the four tasks, and Impl => Req for "
+             "mean_average_precision on multilabel truths (both as-found defects are refuted by TLC in spec/history). It "
+             "enumerates problems (<= 3 items, <= 3 tags, quarter scores, clip shapes with empty clips, two realisation "
+             "styles); each is built as real clips/annotations/predictions, run through the task function in two clip "
+             "orders and through soundevent.io.save/load, and TLC validates the recorded terms, every value (observed "
+             "doubles as limb numbers against the rationals), score means, order independence and AOEF survival. "
+             "Bounded-exhaustive / strided, plus random problems with <= 4 items, <= 4 tags on 1/4 and 1/8 lattices."),
+    "note": ("trusted: TLC, the binder checks/c09.py (builds objects, maps results back by uuid, encodes doubles), exactness of "
+             "k/4 and k/8 in float32; small-scope hypothesis beyond the enumerated universe. Not decided: empty vocabulary; "
+             "sound_event_detection without any labelled item (mean average precision undefined, the library raises); the "
+             "value of base-level scores (only their aggregation); unmatched detections (C08). Open finding "
+             "Evaluates/cml/ValueError/vocab1."),
+    "design_ref": "DESIGN.md section 4 C09",
+}
